@@ -565,25 +565,173 @@ Proof.
   intros Hok. apply (G (S (String.length (rtoks_text ts)))); [lia|exact Hok].
 Qed.
 
+
+(* ------------------------------------------------------------------ *)
+(* 2b. the tokens of a tree spell its print — for EVERY tree                                               *)
+
+Lemma rtoks_text_app a b : rtoks_text (a ++ b) = rtoks_text a ++ rtoks_text b.
+Proof. induction a as [|t a IH]; simpl; [reflexivity|]. rewrite IH, sapp_assoc. reflexivity. Qed.
+
+Fixpoint plS (l : list sx) : string := match l with [] => "" | x :: r => print x ++ plS r end.
+Fixpoint paS (l : list sx) : string := match l with [] => "" | [x] => print x | x :: r => print x ++ "|" ++ paS r end.
+Lemma print_concat_S v l : print (X OpConcat v l) = plS l.
+Proof. cbn [print]. induction l as [|x l IH]; [reflexivity|]. cbn [plS]. rewrite <- IH. reflexivity. Qed.
+Lemma print_alt_S v l : print (X OpAlt v l) = paS l.
+Proof.
+  cbn [print]. induction l as [|x l IH]; [reflexivity|]. destruct l as [|y l]; [reflexivity|].
+  change (paS (x :: y :: l)) with (print x ++ "|" ++ paS (y :: l)). rewrite <- IH. reflexivity.
+Qed.
+
+Ltac tp_dflt := cbn [toks_of rtoks_text rtok_text tok_text print]; apply sapp_nil_r.
+
+Theorem toks_print e : rtoks_text (toks_of e) = print e.
+Proof.
+  induction e as [e IH] using sx_ind_size. destruct e as [o v args].
+  assert (IHin : forall y, In y args -> rtoks_text (toks_of y) = print y).
+  { intros y Hy. apply IH. rewrite sx_size_X. pose proof (sizes_in y args Hy). lia. }
+  destruct o; try tp_dflt.
+  - (* Concat *) rewrite toks_concat, print_concat_S. induction args as [|x r IHr]; [reflexivity|].
+    cbn [catT plS]. rewrite rtoks_text_app, (IHin x (or_introl eq_refl)), IHr; [reflexivity| |].
+    + intros e' He'. apply IH. rewrite !sx_size_X in *. cbn [sizes]. lia.
+    + intros y Hy. apply IHin. right. exact Hy.
+  - (* Dot *) cbn [toks_of]. destruct (String.eqb_spec v ".") as [->|_]; reflexivity || (cbn; apply sapp_nil_r).
+  - (* Alt *) rewrite toks_alt, print_alt_S. induction args as [|x r IHr]; [reflexivity|].
+    destruct r as [|y r].
+    + cbn [altT paS]. apply IHin. left. reflexivity.
+    + change (altT (x :: y :: r)) with (toks_of x ++ ROp 124 :: altT (y :: r))%list.
+      change (paS (x :: y :: r)) with (print x ++ "|" ++ paS (y :: r)).
+      rewrite rtoks_text_app, (IHin x (or_introl eq_refl)). cbn [rtoks_text rtok_text]. rewrite IHr; [reflexivity| |].
+      * intros e' He'. apply IH. rewrite !sx_size_X in *. cbn [sizes] in *. lia.
+      * intros z Hz. apply IHin. right. exact Hz.
+  - (* Star *) destruct args as [|x [|? ?]]; try tp_dflt. cbn [toks_of print]. rewrite rtoks_text_app, (IHin x (or_introl eq_refl)). reflexivity.
+  - (* Plus *) destruct args as [|x [|? ?]]; try tp_dflt. cbn [toks_of print]. rewrite rtoks_text_app, (IHin x (or_introl eq_refl)). reflexivity.
+  - (* Question *) destruct args as [|x [|? ?]]; try tp_dflt. cbn [toks_of print]. rewrite rtoks_text_app, (IHin x (or_introl eq_refl)). reflexivity.
+  - (* NonGreedy *) destruct args as [|x [|? ?]]; try tp_dflt. cbn [toks_of print]. rewrite rtoks_text_app, (IHin x (or_introl eq_refl)). reflexivity.
+  - (* Caret *) cbn [toks_of]. destruct (String.eqb_spec v "^") as [->|_]; reflexivity || (cbn; apply sapp_nil_r).
+  - (* Dollar *) cbn [toks_of]. destruct (String.eqb_spec v "$") as [->|_]; reflexivity || (cbn; apply sapp_nil_r).
+  - (* Repeat *) destruct args as [|x [|r [|? ?]]]; try tp_dflt. cbn [toks_of print]. rewrite rtoks_text_app, (IHin x (or_introl eq_refl)).
+    cbn [rtoks_text rtok_text tok_text]. rewrite sapp_nil_r. reflexivity.
+  - (* Capture *) destruct args as [|x [|? ?]]; try tp_dflt. cbn [toks_of print rtoks_text rtok_text]. rewrite rtoks_text_app, (IHin x (or_introl eq_refl)). reflexivity.
+  - (* NamedCapture *) destruct args as [|x [|nm [|? ?]]]; try tp_dflt. cbn [toks_of print rtoks_text rtok_text]. rewrite rtoks_text_app, (IHin x (or_introl eq_refl)).
+    unfold named_open. cbn [rtoks_text rtok_text]. rewrite !sapp_assoc. reflexivity.
+  - (* Group *) destruct args as [|x [|? ?]]; try tp_dflt. cbn [toks_of print rtoks_text rtok_text]. rewrite rtoks_text_app, (IHin x (or_introl eq_refl)). reflexivity.
+  - (* GroupWithFlags *) destruct args as [|x [|fl [|? ?]]]; try tp_dflt. cbn [toks_of print rtoks_text rtok_text]. rewrite rtoks_text_app, (IHin x (or_introl eq_refl)).
+    cbn [rtoks_text rtok_text]. rewrite !sapp_assoc. reflexivity.
+Qed.
+
+
+(* ------------------------------------------------------------------ *)
+(* 2c. canon does not change the elaboration — for every tree of printable shape                            *)
+
+Definition den_same (e : sx) : Prop := forall st, den (canon e) st = den e st.
+
+Lemma denL_cmap cl : (forall y, In y cl -> den_same y) -> forall st, denL (cmap cl) st = denL cl st.
+Proof.
+  induction cl as [|x r IH]; intros HP st; [reflexivity|]. cbn [cmap denL]. rewrite (HP x (or_introl eq_refl) st).
+  destruct (den x st) as [[x' st1]|]; [|reflexivity]. rewrite (IH (fun y Hy => HP y (or_intror Hy)) st1). reflexivity.
+Qed.
+
+Lemma branch_den c : (forall y, sx_size y < sx_size c -> item_ok y = true -> den_same y) -> (item_ok c = true -> den_same c) ->
+  branch_okF item_ok c = true -> den_same c.
+Proof.
+  intros IH IHc H. destruct c as [o v cl]. destruct o; try (apply IHc; exact H); try discriminate H.
+  cbn [branch_okF] in H. apply andb_true_iff in H as [Hne Hall].
+  assert (HP : forall y, In y cl -> den_same y).
+  { intros y Hy. apply IH; [rewrite sx_size_X; pose proof (sizes_in y cl Hy); lia|]. rewrite forallb_forall in Hall. exact (Hall y Hy). }
+  intros st. destruct cl as [|x [|y r]]; [discriminate Hne| |].
+  - cbn [canon]. rewrite (HP x (or_introl eq_refl) st), den_concat. cbn [denL]. destruct (den x st) as [[x' st1]|]; reflexivity.
+  - rewrite canon_inner; [|reflexivity|intros _ z E; discriminate E|discriminate|discriminate].
+    rewrite !den_concat, (denL_cmap _ HP st). reflexivity.
+Qed.
+
+Lemma body_den b : (forall y, sx_size y <= sx_size b -> item_ok y = true -> den_same y) -> body_okF item_ok b = true -> den_same b.
+Proof.
+  intros IH H.
+  assert (Hbr : forall c, sx_size c <= sx_size b -> branch_okF item_ok c = true -> den_same c).
+  { intros c Hc Hok. apply branch_den; [intros y Hy; apply IH; lia|apply IH; lia|exact Hok]. }
+  destruct b as [o v l]. destruct o; try (apply Hbr; [lia|exact H]).
+  cbn [body_okF] in H. apply andb_true_iff in H as [_ Hall]. intros st.
+  rewrite canon_inner; [|reflexivity|discriminate|discriminate|discriminate].
+  rewrite !den_alt, (denL_cmap l); [reflexivity|].
+  intros y Hy. apply Hbr; [rewrite sx_size_X; pose proof (sizes_in y l Hy); lia|]. rewrite forallb_forall in Hall. exact (Hall y Hy).
+Qed.
+
+Lemma item_not_concat e : item_ok e = true -> sx_op e <> OpConcat.
+Proof. destruct e as [o v a]. intros H E. cbn [sx_op] in E. subst o. discriminate H. Qed.
+
+Lemma canon_op' e : item_ok e = true -> sx_op (canon e) = sx_op e.
+Proof. intros H. destruct e as [o v a]. apply canon_op. exact (item_not_concat _ H). Qed.
+
+Lemma canon_string v : canon (X OpString v []) = X OpString v []. Proof. reflexivity. Qed.
+
+Theorem item_den_all e : item_ok e = true -> den_same e.
+Proof.
+  induction e as [e IH] using sx_ind_size. intros H. destruct e as [o v args].
+  assert (Hbody : forall b, In b args -> body_okF item_ok b = true -> den_same b).
+  { intros b Hb Hok. apply body_den; [|exact Hok]. intros y Hy Hi. apply IH; [rewrite sx_size_X; pose proof (sizes_in b args Hb); lia|exact Hi]. }
+  intros st. destruct o; try discriminate H; try reflexivity.
+  - (* Star *) destruct args as [|x [|? ?]]; try discriminate H. cbn [item_ok] in H.
+    rewrite canon_inner; [|reflexivity|discriminate|discriminate|discriminate]. cbn [cmap den sx_op].
+    rewrite (canon_op' x H), (IH x (size_arg1 _ _ _ _) H st). reflexivity.
+  - (* Plus *) destruct args as [|x [|? ?]]; try discriminate H. cbn [item_ok] in H. apply andb_true_iff in H as [H _].
+    rewrite canon_inner; [|reflexivity|discriminate|discriminate|discriminate]. cbn [cmap den sx_op].
+    rewrite (canon_op' x H), (IH x (size_arg1 _ _ _ _) H st). reflexivity.
+  - (* Question *) destruct args as [|x [|? ?]]; try discriminate H. cbn [item_ok] in H. apply andb_true_iff in H as [H _].
+    rewrite canon_inner; [|reflexivity|discriminate|discriminate|discriminate]. cbn [cmap den sx_op].
+    rewrite (canon_op' x H), (IH x (size_arg1 _ _ _ _) H st). reflexivity.
+  - (* NonGreedy *) destruct args as [|q [|? ?]]; try discriminate H. cbn [item_ok] in H. apply andb_true_iff in H as [H Hq].
+    rewrite canon_inner; [|reflexivity|discriminate|discriminate|discriminate]. cbn [cmap].
+    destruct q as [qo qv qa]. cbn [sx_op] in Hq.
+    assert (IHq : forall y, In y qa -> item_ok y = true -> den_same y).
+    { intros y Hy Hi. apply IH; [|exact Hi]. rewrite !sx_size_X. cbn [sizes]. rewrite sx_size_X. pose proof (sizes_in y qa Hy). lia. }
+    destruct qo; try discriminate Hq.
+    + destruct qa as [|x [|? ?]]; try discriminate H. cbn [item_ok] in H.
+      rewrite (canon_inner OpStar); [|reflexivity|discriminate|discriminate|discriminate]. cbn [cmap den sx_op is_quant andb rep_text].
+      rewrite (canon_op' x H), (IHq x (or_introl eq_refl) H st). reflexivity.
+    + destruct qa as [|x [|? ?]]; try discriminate H. cbn [item_ok] in H. apply andb_true_iff in H as [H _].
+      rewrite (canon_inner OpPlus); [|reflexivity|discriminate|discriminate|discriminate]. cbn [cmap den sx_op is_quant andb rep_text].
+      rewrite (canon_op' x H), (IHq x (or_introl eq_refl) H st). reflexivity.
+    + destruct qa as [|x [|? ?]]; try discriminate H. cbn [item_ok] in H. apply andb_true_iff in H as [H _].
+      rewrite (canon_inner OpQuestion); [|reflexivity|discriminate|discriminate|discriminate]. cbn [cmap den sx_op is_quant andb rep_text].
+      rewrite (canon_op' x H), (IHq x (or_introl eq_refl) H st). reflexivity.
+    + destruct qa as [|x [|[[] rv []] [|? ?]]]; try discriminate H. cbn [item_ok] in H.
+      rewrite (canon_inner OpRepeat); [|reflexivity|discriminate|discriminate|discriminate]. cbn [cmap]. rewrite canon_string.
+      cbn [den sx_op is_quant andb rep_text sx_val].
+      rewrite (canon_op' x H), (IHq x (or_introl eq_refl) H st). reflexivity.
+  - (* Repeat *) destruct args as [|x [|[[] rv []] [|? ?]]]; try discriminate H. cbn [item_ok] in H.
+    rewrite canon_inner; [|reflexivity|discriminate|discriminate|discriminate]. cbn [cmap]. rewrite canon_string. cbn [den sx_op sx_val].
+    rewrite (canon_op' x H), (IH x (size_arg1 _ _ _ _) H st). reflexivity.
+  - (* Capture *) destruct args as [|b [|? ?]]; try discriminate H. cbn [item_ok] in H.
+    rewrite canon_inner; [|reflexivity|discriminate|discriminate|discriminate]. cbn [cmap den].
+    rewrite (Hbody b (or_introl eq_refl) H). reflexivity.
+  - (* NamedCapture *) destruct args as [|b [|[[] nm []] [|? ?]]]; try discriminate H. cbn [item_ok] in H. apply andb_true_iff in H as [H _].
+    cbn [canon inner_op]. cbn [den sx_val]. rewrite (Hbody b (or_introl eq_refl) H). reflexivity.
+  - (* Group *) destruct args as [|b [|? ?]]; try discriminate H. cbn [item_ok] in H.
+    rewrite canon_inner; [|reflexivity|discriminate|discriminate|discriminate]. cbn [cmap den].
+    rewrite (Hbody b (or_introl eq_refl) H). reflexivity.
+  - (* GroupWithFlags *) destruct args as [|b [|[[] fl []] [|? ?]]]; try discriminate H. cbn [item_ok] in H. apply andb_true_iff in H as [H _].
+    rewrite canon_inner; [|reflexivity|discriminate|discriminate|discriminate]. cbn [cmap]. rewrite canon_string. cbn [den sx_val].
+    destruct (apply_flags fl true (d_fl st)); [|reflexivity]. rewrite (Hbody b (or_introl eq_refl) H). reflexivity.
+  - (* FlagOnlyGroup *) destruct args as [|[[] fl []] [|? ?]]; try discriminate H. reflexivity.
+Qed.
+
+Theorem den_canon t : pattern_ok t = true -> forall st, den (canon t) st = den t st.
+Proof. intros H. apply body_den; [|exact H]. intros y _ Hy. apply item_den_all. exact Hy. Qed.
+
 (* ------------------------------------------------------------------ *)
 (* 3. print-then-parse for whole patterns, and the printed rewrite                                         *)
 
 (* the text a tree prints as is parsed back, by the model of the checker's parser, to the tree up to canon *)
 Theorem text_roundtrip t :
-  pattern_ok t = true -> rtoks_ok (toks_of t) = true -> rtoks_text (toks_of t) = print t ->
-  parse_re (print t) = Some (canon t).
+  pattern_ok t = true -> rtoks_ok (toks_of t) = true -> parse_re (print t) = Some (canon t).
 Proof.
-  intros Hs Ht Hp. unfold parse_re. rewrite <- Hp, (lex_re_roundtrip _ Ht). apply parse_toks_roundtrip. exact Hs.
+  intros Hs Ht. unfold parse_re. rewrite <- (toks_print t), (lex_re_roundtrip _ Ht). apply parse_toks_roundtrip. exact Hs.
 Qed.
 
 From GC Require Import Proofs_RegexSimplify Proofs_RegexWalkS.
 
-(* Text guards on a whole tree.  The first two conjuncts are the guards of the round-trip theorems.  The last two are
-   bookkeeping facts about the tree itself - its tokens spell its print, and erasing what the parser cannot know
-   (canon) does not change its elaboration; they hold for every tree of printable shape but are evaluated per case here,
-   not proved in general. *)
-Definition tree_text_ok (t : sx) : bool :=
-  pattern_ok t && rtoks_ok (toks_of t) && String.eqb (rtoks_text (toks_of t)) (print t) && same_meaning t (canon t).
+(* Text guards on a whole tree: exactly the guards of the two round-trip theorems (shape; tokens with one byte of look-ahead) *)
+Definition tree_text_ok (t : sx) : bool := pattern_ok t && rtoks_ok (toks_of t).
 
 (* THE PRINTED REWRITE: under the tree-level guards (final_ok: every pass starts in the fragment, passes are linked) and
    the text-level guards on the final tree, the TEXT the checker prints, lexed and parsed by the model of its own
@@ -598,13 +746,10 @@ Theorem printed_rewrite_sound pat t1 t2f final :
 Proof.
   intros Hfin Hok Htxt. set (ft := final_tree t1 (t2f (simplify1 t1))) in *.
   pose proof (final_text pat t1 t2f final Hfin) as Hprint. fold ft in Hprint.
-  unfold tree_text_ok in Htxt. apply andb_true_iff in Htxt as [Htxt Hsm]. apply andb_true_iff in Htxt as [Htxt Hpr].
-  apply andb_true_iff in Htxt as [Hshape Htok]. apply String.eqb_eq in Hpr.
-  pose proof (text_roundtrip ft Hshape Htok Hpr) as Hparse.
+  unfold tree_text_ok in Htxt. apply andb_true_iff in Htxt as [Hshape Htok].
+  pose proof (text_roundtrip ft Hshape Htok) as Hparse.
   destruct (final_sound t1 (t2f (simplify1 t1)) Hok) as (a & b & n & names & H1 & H2 & H3 & _ & H5). fold ft in H2, H5.
-  destruct (same_meaning_find ft (canon ft) Hsm) as (a2 & b2 & n2 & names2 & G1 & G2 & G3 & G4).
-  rewrite H2 in G1. inversion G1; subst a2 n2 names2.
-  exists (canon ft), a, b2, n, names. rewrite Hprint. split; [exact Hparse|]. split; [exact H1|]. split; [exact G2|].
-  split; [eapply req_trans; [apply req_sym; exact G3|exact H3]|].
-  intros subject. rewrite <- G4. apply H5.
+  assert (Ed : den_top (canon ft) = den_top ft) by (unfold den_top; rewrite (den_canon ft Hshape); reflexivity).
+  exists (canon ft), a, b, n, names. rewrite Hprint. split; [exact Hparse|]. split; [exact H1|]. split; [rewrite Ed; exact H2|].
+  split; [exact H3|]. intros subject. rewrite <- H5. unfold find_go. rewrite Ed. reflexivity.
 Qed.
